@@ -869,18 +869,19 @@ Qed.
 
 (** C03-F7 (pinned tree only): a lower-case encoded slash where the setting keeps or forbids
     encoded slashes *)
-Definition guard_F7 (fx7 : bool) (sl : slash) (q : request) (v : string) : bool :=
+Definition guard_F7 (fx7 : dec) (sl : slash) (q : request) (v : string) : bool :=
   negb (String.eqb (q_rawpath q) "") &&
   match sl with
-  | SOff => negb fx7 && contains "%2f" (q_rawpath q)
+  | SOff => negb (is7 fx7) && contains "%2f" (q_rawpath q)
   | SNoDecode => guard_F7_val fx7 v
   | SOn => false
   end.
 
-(** C03-F8: the decoding contains the beginning of the place-holder (no_decode) *)
-Definition guard_F8 (sl : slash) (q : request) (v : string) : bool :=
+(** C03-F8 (decoder with place-holder only): the decoding contains the beginning of the
+    place-holder (no_decode) *)
+Definition guard_F8 (fx7 : dec) (sl : slash) (q : request) (v : string) : bool :=
   negb (String.eqb (q_rawpath q) "") && slash_eqb sl SNoDecode &&
-  match spec_decode true v with Some d => guard_F8_val d | None => false end.
+  match spec_decode true v with Some d => guard_F8_val fx7 d | None => false end.
 
 Definition on_param (g : slash -> request -> string -> bool) (sl : slash) (q : request)
            (keys vals : list string) (p : param) : bool :=
@@ -893,7 +894,7 @@ Lemma param_semantics fx6 fx7 eng sl q keys vals p :
   length keys = length vals -> Forall valid_enc vals -> Forall (from_path q) vals ->
   on_param (guard_F6 fx6) sl q keys vals p = false ->
   on_param (guard_F7 fx7) sl q keys vals p = false ->
-  on_param guard_F8 sl q keys vals p = false ->
+  on_param (guard_F8 fx7) sl q keys vals p = false ->
   param_match fx6 fx7 eng sl q keys vals p = of_bool (spec_param eng sl q keys vals p).
 Proof.
   intros Hl Hv Hfp. unfold on_param, param_match, spec_param.
@@ -915,8 +916,8 @@ Proof.
   - simpl negb. rewrite orb_false_r, !andb_true_l. destruct sl; simpl slash_eqb; simpl keep_slash_of in *.
     + (* off *)
       rewrite !andb_true_r. intros H6 H7 _.
-      assert (Ees : fx7 = true \/ contains "%2f" (q_rawpath q) = false).
-      { destruct fx7; [left; reflexivity | right; exact H7]. }
+      assert (Ees : is7 fx7 = true \/ contains "%2f" (q_rawpath q) = false).
+      { destruct (is7 fx7); [left; reflexivity | right; exact H7]. }
       assert (Ece : contains_enc_slash fx7 (q_rawpath q) = has_enc_slash (q_rawpath q)).
       { unfold contains_enc_slash. rewrite has_enc_slash_unfold.
         destruct Ees as [-> | ->]; [reflexivity | rewrite andb_false_r; reflexivity]. }
@@ -946,7 +947,7 @@ Lemma params_semantics fx6 fx7 eng sl q keys vals ps :
   length keys = length vals -> Forall valid_enc vals -> Forall (from_path q) vals ->
   on_params (guard_F6 fx6) sl q keys vals ps = false ->
   on_params (guard_F7 fx7) sl q keys vals ps = false ->
-  on_params guard_F8 sl q keys vals ps = false ->
+  on_params (guard_F8 fx7) sl q keys vals ps = false ->
   params_match fx6 fx7 eng sl q keys vals ps = of_bool (forallb (spec_param eng sl q keys vals) ps).
 Proof.
   intros Hl Hv Hfp. unfold on_params. induction ps as [|p r IH]; simpl; [reflexivity|].
@@ -986,7 +987,7 @@ Lemma route_semantics fx1 fx4 fx6 fx7 eng r cr :
       guard_F4 fx4 (rl_methods r) = false ->
       on_params (guard_F6 fx6) (rl_slash r) q keys vals (rt_params rt) = false ->
       on_params (guard_F7 fx7) (rl_slash r) q keys vals (rt_params rt) = false ->
-      on_params guard_F8 (rl_slash r) q keys vals (rt_params rt) = false ->
+      on_params (guard_F8 fx7) (rl_slash r) q keys vals (rt_params rt) = false ->
       route_matches fx1 fx6 fx7 eng cm q keys vals =
       of_bool (spec_route_ok eng r (rt_params rt) q keys vals).
 Proof.
@@ -1027,15 +1028,15 @@ Proof.
 Qed.
 
 (** the guards of C03-F7 / F8 on every exposed value *)
-Definition caps_guard_F7 (fx7 : bool) (sl : slash) (pairs : list (string * string)) : bool :=
+Definition caps_guard_F7 (fx7 : dec) (sl : slash) (pairs : list (string * string)) : bool :=
   negb (slash_eqb sl SOn) && existsb (fun kv => guard_F7_val fx7 (snd kv)) pairs.
-Definition caps_guard_F8 (sl : slash) (pairs : list (string * string)) : bool :=
+Definition caps_guard_F8 (fx7 : dec) (sl : slash) (pairs : list (string * string)) : bool :=
   negb (slash_eqb sl SOn) &&
-  existsb (fun kv => match spec_decode true (snd kv) with Some d => guard_F8_val d | None => false end) pairs.
+  existsb (fun kv => match spec_decode true (snd kv) with Some d => guard_F8_val fx7 d | None => false end) pairs.
 
 Lemma decode_all_model fx7 sl pairs dec :
   decode_all (keep_slash_of sl) pairs = Some dec ->
-  caps_guard_F7 fx7 sl pairs = false -> caps_guard_F8 sl pairs = false ->
+  caps_guard_F7 fx7 sl pairs = false -> caps_guard_F8 fx7 sl pairs = false ->
   map (dec_pair (fun v => unescape fx7 v sl)) pairs = dec.
 Proof.
   unfold caps_guard_F7, caps_guard_F8.
@@ -1068,8 +1069,8 @@ Qed.
 
 (** Execute: rejected exactly when the setting is `off` and the raw path contains
     an encoded slash; otherwise the captures are the decoded named segments *)
-Definition req_guard_F7 (fx7 : bool) (sl : slash) (q : request) : bool :=
-  negb fx7 && slash_eqb sl SOff && contains "%2f" (q_rawpath q).
+Definition req_guard_F7 (fx7 : dec) (sl : slash) (q : request) : bool :=
+  negb (is7 fx7) && slash_eqb sl SOff && contains "%2f" (q_rawpath q).
 
 Lemma captures_semantics fx7 sl q names segs :
   req_guard_F7 fx7 sl q = false ->          (* C03-F7 on the request *)
@@ -1077,13 +1078,13 @@ Lemma captures_semantics fx7 sl q names segs :
   rej = spec_rejected sl q /\
   (rej = false -> forall sc, spec_captures sl names segs = Some sc ->
      caps_guard_F7 fx7 sl (named_pairs names segs) = false ->
-     caps_guard_F8 sl (named_pairs names segs) = false -> caps = sc).
+     caps_guard_F8 fx7 sl (named_pairs names segs) = false -> caps = sc).
 Proof.
   intro H7q. unfold execute, spec_rejected, spec_captures.
   assert (Hcaps : forall sc,
     option_map map_of (decode_all (keep_slash_of sl) (named_pairs names segs)) = Some sc ->
     caps_guard_F7 fx7 sl (named_pairs names segs) = false ->
-    caps_guard_F8 sl (named_pairs names segs) = false ->
+    caps_guard_F8 fx7 sl (named_pairs names segs) = false ->
     map (fun kv => (fst kv, unescape fx7 (snd kv) sl)) (map_of (named_pairs names segs)) = sc).
   { intros sc Hs G7 G8.
     destruct (decode_all (keep_slash_of sl) (named_pairs names segs)) as [dec|] eqn:Ed; [|discriminate].
@@ -1094,9 +1095,9 @@ Proof.
   unfold req_guard_F7 in H7q.
   destruct sl; cbn [slash_eqb andb] in *.
   - rewrite has_enc_slash_unfold. unfold contains_enc_slash.
-    assert (E : contains "%2F" (q_rawpath q) || fx7 && contains "%2f" (q_rawpath q)
+    assert (E : contains "%2F" (q_rawpath q) || is7 fx7 && contains "%2f" (q_rawpath q)
                 = contains "%2F" (q_rawpath q) || contains "%2f" (q_rawpath q)).
-    { destruct fx7; cbn [negb andb] in *; [reflexivity|]. rewrite H7q. reflexivity. }
+    { destruct (is7 fx7); cbn [negb andb] in *; [reflexivity|]. rewrite H7q. reflexivity. }
     rewrite E.
     destruct (contains "%2F" (q_rawpath q) || contains "%2f" (q_rawpath q)).
     + split; [reflexivity | discriminate].
@@ -1124,7 +1125,7 @@ Definition only_matcher (fx4 : bool) (r : ruledef) : option cmatcher :=
 (** C03-F1: hosts [a.com, b.com]; GET http://a.com/a is not matched *)
 Lemma F1_refuted :
   exists r cm q, only_matcher false r = Some cm /\ guard_F1 false eng_none (rl_hosts r) q = true /\
-    route_matches false true true eng_none cm q [] [] = MNo /\ spec_route_ok eng_none r [] q [] [] = true.
+    route_matches false true D7 eng_none cm q [] [] = MNo /\ spec_route_ok eng_none r [] q [] [] = true.
 Proof.
   exists (w_rule [] [w_exact "a.com"; w_exact "b.com"] [w_route "/a" []] SOff).
   eexists. exists (w_req "GET" "a.com" "/a"). vm_compute. repeat split.
@@ -1133,7 +1134,7 @@ Qed.
 (** C03-F4: methods ["!GET"]; GET /a is matched *)
 Lemma F4_refuted :
   exists r cm q, only_matcher false r = Some cm /\ guard_F4 false (rl_methods r) = true /\
-    route_matches false true true eng_none cm q [] [] = MYes /\ spec_route_ok eng_none r [] q [] [] = false.
+    route_matches false true D7 eng_none cm q [] [] = MYes /\ spec_route_ok eng_none r [] q [] [] = false.
 Proof.
   exists (w_rule ["!GET"] [] [w_route "/a" []] SOff).
   eexists. exists (w_req "GET" "h" "/a"). vm_compute. repeat split.
@@ -1145,7 +1146,7 @@ Lemma F6_pinned_refuted :
   exists r ps cm q keys vals, only_matcher false r = Some cm /\ cm_params cm = ps /\
     length keys = length vals /\ Forall valid_enc vals /\ Forall (from_path q) vals /\
     on_params (guard_F6 false) (rl_slash r) q keys vals ps = true /\
-    route_matches false false true eng_none cm q keys vals = MNo /\ spec_route_ok eng_none r ps q keys vals = true.
+    route_matches false false D7 eng_none cm q keys vals = MNo /\ spec_route_ok eng_none r ps q keys vals = true.
 Proof.
   exists (w_rule [] [] [w_route "/file/:name" [{| pp_name := "name"; pp_tm := w_exact "A" |}]] SOff).
   eexists. eexists. exists (w_req "GET" "h" "/file/%41"), ["name"], ["%41"].
@@ -1159,8 +1160,8 @@ Qed.
     accepted and the capture is a/b *)
 Lemma F7_pinned_refuted :
   exists sl q names segs caps sc,
-    req_guard_F7 false sl q = true /\
-    execute false sl q (map_of (named_pairs names segs)) = (caps, false) /\
+    req_guard_F7 D0 sl q = true /\
+    execute D0 sl q (map_of (named_pairs names segs)) = (caps, false) /\
     spec_rejected sl q = true /\
     spec_captures sl names segs = Some sc /\ caps <> sc.
 Proof.
@@ -1170,14 +1171,14 @@ Qed.
 
 (** ... and under no_decode the lower-case encoded slash is decoded *)
 Lemma F7_pinned_refuted_nd :
-  exists v d, guard_F7_val false v = true /\ spec_decode true v = Some d /\ unescape false v SNoDecode <> d.
+  exists v d, guard_F7_val D0 v = true /\ spec_decode true v = Some d /\ unescape D0 v SNoDecode <> d.
 Proof. exists "a%2fb". eexists. vm_compute. repeat split. discriminate. Qed.
 
 (** C03-F8: /file/:name (no_decode); GET /file/$$$escaped-slash$$$ gives the capture %2F *)
 Lemma F8_refuted :
   exists sl q names segs caps sc,
-    caps_guard_F8 sl (named_pairs names segs) = true /\
-    execute true sl q (map_of (named_pairs names segs)) = (caps, false) /\
+    caps_guard_F8 D7 sl (named_pairs names segs) = true /\
+    execute D7 sl q (map_of (named_pairs names segs)) = (caps, false) /\
     spec_rejected sl q = false /\
     spec_captures sl names segs = Some sc /\ caps <> sc.
 Proof.
@@ -1194,8 +1195,8 @@ Lemma route_semantics_nonvacuous :
     Forall (from_path q) vals /\
     guard_F1 false eng_none (rl_hosts r) q = false /\ guard_F4 false (rl_methods r) = false /\
     on_params (guard_F6 true) (rl_slash r) q keys vals (cm_params cm) = false /\
-    on_params guard_F8 (rl_slash r) q keys vals (cm_params cm) = false /\
-    route_matches false true true eng_none cm q keys vals = MYes.
+    on_params (guard_F8 D7) (rl_slash r) q keys vals (cm_params cm) = false /\
+    route_matches false true D7 eng_none cm q keys vals = MYes.
 Proof.
   exists {| rl_scheme := "http"; rl_methods := ["ALL"; "!TRACE"]; rl_hosts := [w_exact "a.com"];
             rl_routes := [w_route "/file/:name" [{| pp_name := "name"; pp_tm := w_exact "[id]%2Fx" |}]];
@@ -1225,28 +1226,26 @@ Proof.
   - intros q G. exact (method_list_semantics _ _ _ q H G).
 Qed.
 
-Lemma decode_per_setting : forall sl v d,
+Lemma decode_per_setting : forall fx7 sl v d,
   spec_decode (keep_slash_of sl) v = Some d ->
-  (sl = SOn \/ guard_F8_val d = false) ->
-  unescape true v sl = d.
+  (sl = SOn \/ (guard_F7_val fx7 v = false /\ guard_F8_val fx7 d = false)) ->
+  unescape fx7 v sl = d.
 Proof.
-  intros sl v d Hd [->|H8].
+  intros fx7 sl v d Hd [->|[H7 H8]].
   - exact (on_decode _ _ _ Hd).
-  - destruct sl; [exact (nd_decode true _ _ Hd eq_refl H8) | exact (on_decode _ _ _ Hd) | exact (nd_decode true _ _ Hd eq_refl H8)].
+  - destruct sl; [exact (nd_decode _ _ _ Hd H7 H8) | exact (on_decode _ _ _ Hd) | exact (nd_decode _ _ _ Hd H7 H8)].
 Qed.
 
-Lemma captures_exact : forall sl q names segs caps rej,
-  execute true sl q (map_of (named_pairs names segs)) = (caps, rej) ->
+Lemma captures_exact : forall fx7 sl q names segs caps rej,
+  req_guard_F7 fx7 sl q = false ->
+  execute fx7 sl q (map_of (named_pairs names segs)) = (caps, rej) ->
   rej = spec_rejected sl q /\
   (rej = false -> forall sc, spec_captures sl names segs = Some sc ->
-     caps_guard_F8 sl (named_pairs names segs) = false -> caps = sc).
+     caps_guard_F7 fx7 sl (named_pairs names segs) = false ->
+     caps_guard_F8 fx7 sl (named_pairs names segs) = false -> caps = sc).
 Proof.
-  intros sl q names segs caps rej E. generalize (captures_semantics true sl q names segs eq_refl).
-  rewrite E. intros [H1 H2]. split; [exact H1|]. intros Hr sc Hs H8.
-  apply (H2 Hr sc Hs); [|exact H8].
-  unfold caps_guard_F7, guard_F7_val. cbn [negb andb].
-  destruct (negb (slash_eqb sl SOn)); [|reflexivity].
-  apply existsb_const_false.
+  intros fx7 sl q names segs caps rej H7 E. generalize (captures_semantics fx7 sl q names segs H7).
+  rewrite E. tauto.
 Qed.
 
 Lemma unnamed_not_exposed : forall names segs k v,
@@ -1258,16 +1257,8 @@ Proof.
   - intros [H|H]; [inversion H; subst; apply String.eqb_neq; assumption | exact (IH _ _ _ H)].
 Qed.
 
-Lemma guard_F7_fixed sl q keys vals ps : on_params (guard_F7 true) sl q keys vals ps = false.
-Proof.
-  unfold on_params. induction ps as [|p r IH]; [reflexivity|].
-  cbn [existsb]. rewrite IH, orb_false_r. unfold on_param, guard_F7, guard_F7_val.
-  destruct (assoc_first (pp_name p) keys vals); [|reflexivity].
-  destruct sl; cbn [negb andb]; apply andb_false_r.
-Qed.
-
-(** the tree as it is now (C03-F7 repaired) *)
-Lemma route_matches_iff fx1 fx4 eng r cr :
+(** the tree as it is now: C03-F6 repaired, every variant of the decoder *)
+Lemma route_matches_iff fx1 fx4 fx7 eng r cr :
   create_rule fx4 r = Ok cr ->
   forall path cm, In (path, cm) (cr_routes cr) ->
   exists rt, In rt (rl_routes r) /\ path = rt_path rt /\
@@ -1276,17 +1267,13 @@ Lemma route_matches_iff fx1 fx4 eng r cr :
       guard_F1 fx1 eng (rl_hosts r) q = false ->
       guard_F4 fx4 (rl_methods r) = false ->
       on_params (guard_F6 true) (rl_slash r) q keys vals (rt_params rt) = false ->
-      on_params guard_F8 (rl_slash r) q keys vals (rt_params rt) = false ->
-      route_matches fx1 true true eng cm q keys vals =
+      on_params (guard_F7 fx7) (rl_slash r) q keys vals (rt_params rt) = false ->
+      on_params (guard_F8 fx7) (rl_slash r) q keys vals (rt_params rt) = false ->
+      route_matches fx1 true fx7 eng cm q keys vals =
       of_bool (spec_scheme (rl_scheme r) q && spec_method (rl_methods r) (q_method q) &&
                spec_hosts eng (rl_hosts r) q &&
                forallb (spec_param eng (rl_slash r) q keys vals) (rt_params rt)).
-Proof.
-  intros Hc path cm Hin. destruct (route_semantics fx1 fx4 true true eng r cr Hc path cm Hin) as (rt & H1 & H2 & H3).
-  exists rt. split; [exact H1|]. split; [exact H2|].
-  intros q keys vals Hl Hv Hfp G1 G4 G6 G8.
-  exact (H3 q keys vals Hl Hv Hfp G1 G4 G6 (guard_F7_fixed _ _ _ _ _) G8).
-Qed.
+Proof. exact (route_semantics fx1 fx4 true fx7 eng r cr). Qed.
 
 Lemma method_list_rejected : forall ms,
   (create_method_matcher false ms = Rejected <-> In "" ms) /\
